@@ -21,17 +21,19 @@ func NewFilterTree() internaltypes.FilterTreeI {
 // Add a flow with specified filter to the filter tree
 func (f *FilterTree) AddFlow(flow internaltypes.FlowI) error {
 	filter := flow.GetFilter()
-	result := f.tree.Lookup(filter.GetURL())
-	if result.Match && result.NormalizedURL == filter.GetURL() {
+	// Only the node declared for exactly this URL pattern may be extended: the
+	// ordinary Lookup also returns the node of an enclosing wildcard pattern, and
+	// re-inserting a pattern replaces the node (and the flows) stored for it.
+	if existingNode := f.tree.LookupDeclaredURL(filter.GetURL()); existingNode != nil {
 		log.Debug().Msgf("Adding %s flow to existing filter tree: %v",
 			flow.GetType().String(), filter.GetURL())
 		switch flow.GetType() {
 		case internaltypes.UserFlow:
-			return result.Value.addUserFlow(flow)
+			return existingNode.addUserFlow(flow)
 		case internaltypes.SystemFlowStart:
-			return result.Value.addSystemFlowStart(flow)
+			return existingNode.addSystemFlowStart(flow)
 		case internaltypes.SystemFlowEnd:
-			return result.Value.addSystemFlowEnd(flow)
+			return existingNode.addSystemFlowEnd(flow)
 		}
 	}
 	var filterNode *FilterNode
